@@ -157,6 +157,17 @@ func (g *Gen) genRanges() string {
 	for i := 0; i < n; i++ {
 		ip := g.allIPs[g.rng.Intn(len(g.allIPs))]
 		hi := ip + uint32(g.rng.Intn(3))
+		if i == 0 && g.rng.Intn(4) == 0 {
+			// a requested range that spans SEVERAL configured ranges of a pool (and the gaps between them): the walk
+			// over configured ∩ requested has to visit every one of them, not just the first overlapping range
+			if pl := g.initPools[g.rng.Intn(len(g.initPools))]; len(pl.Ranges) > 0 {
+				ip, hi = pl.Ranges[0][0], pl.Ranges[len(pl.Ranges)-1][1]
+				if ip > 2 && g.rng.Intn(2) == 0 {
+					ip -= 2
+					hi += 2
+				}
+			}
+		}
 		ls = append(ls, fmt.Sprintf("%d-%d", ip, hi))
 	}
 	return strings.Join(ls, ";")
